@@ -738,6 +738,10 @@ def _text_views(obj, name, out, private_variants=False):
         add('wif_default', lambda: obj.wif())
         add('wif_public', lambda: obj.wif_public())
         add('wif_is_private_false', lambda: obj.wif(is_private=False))
+        # public exports under explicitly given version bytes (how SLIP-132 ypub / zpub / Ypub strings are made)
+        add('wif_public_prefix_hex', lambda: obj.wif_public(prefix='04b24746'))
+        add('wif_public_prefix_bytes', lambda: obj.wif_public(prefix=bytes.fromhex('049d7cb2')))
+        add('wif_is_private_false_prefix', lambda: obj.wif(is_private=False, prefix='0488b21e'))
     if private_variants:
         # on a PUBLIC object every output must be clean, whatever is asked for
         add('as_dict_private', lambda: obj.as_dict(include_private=True))
